@@ -71,6 +71,11 @@ func init() {
 }
 
 func init() {
+	verifProtocolScenarios = append(verifProtocolScenarios, verifScenario{"C15/interp.Interpreter.cfg/if:\"init\"/*", func() (bool, string) {
+		out, err := verifOutput("package main\ntype reg struct{ n int }\nfunc (r reg) init() { println(\"method init\") }\nfunc init() { println(\"init 1\") }\nfunc init() { println(\"init 2\") }\nfunc main() { println(\"main\") }")
+		want := "init 1\ninit 2\nmain\n"
+		return out != want || err != nil, fmt.Sprintf("output %q (err %v), compiled Go prints %q", out, err, want)
+	}})
 	verifProtocolScenarios = append(verifProtocolScenarios, verifScenario{"C15/interp.getVarDependencies/deps:through-function-bodies", func() (bool, string) {
 		out, err := verifOutput("package main\nvar a = f()\nvar b = 1\nfunc f() int { return b }\nfunc main() { println(a, b) }")
 		return out != "1 1\n", fmt.Sprintf("output %q (err %v), compiled Go prints \"1 1\\n\"", out, err)
